@@ -15,6 +15,16 @@ theorem frameBlob_some (t msg f : Bytes) (h : frameBlob t msg = some f) :
   · simp at h
   · omega
 
+/-- fix 77d5451: the Blob itself is within the reader's limit, too -/
+theorem frameBlob_some_blob (t msg f : Bytes) (h : frameBlob t msg = some f) :
+    (encodeFields [fBytes 1 msg]).length ≤ PbfFraming.maxUncompressedBlobSize := by
+  unfold frameBlob at h
+  split at h
+  · simp at h
+  · split at h
+    · simp at h
+    · omega
+
 /-- what holds for every data blob the writer has emitted and for the block under construction -/
 def LimitInv (o : Opts) (s : WState) : Prop :=
   (∀ b, s.cur = some b → b.count ≤ maxEntitiesPerBlock) ∧
